@@ -17,7 +17,7 @@ Definition REWARD_SPEC : vspec :=
   {| initial_delay := REWARD_VEST_INITIAL_DELAY; vest_period := REWARD_VEST_VEST_PERIOD;
      step_duration := REWARD_VEST_STEP_DURATION; quantization := REWARD_VEST_QUANTIZATION |}.
 
-Definition fund := (Z * Z)%type.      (* (epoch, amount) *)
+Notation fund := (Z * Z)%type (only parsing).      (* (epoch, amount) *)
 Definition table := list fund.
 
 (* QuantSpec { unit, offset }.quantize_up(e): Rust `%` and `/` on i64 truncate (Z.rem / Z.quot) *)
